@@ -1,4 +1,101 @@
-(* C20 - daemon shutdown order. Statements only (filled in as the proofs land). *)
+(* C20 - the daemon stops background workers in descending shutdown order. Statements only.
+   Model: Verif.C20_Daemon.Model (interleaving system; [fixed] = app/daemon after the fix: commits 2c5e958 and
+   8f0f9a5, [pinned] = the pinned code).  A pool is a list of API calls that have not begun (BackgroundWorker with
+   any name / order / body kind, Start, Run, Shutdown / ShutdownAndWait); a schedule is any list of
+   (thread, choice); worker goroutines are spawned by the model. *)
 From Coq Require Import ZArith List Bool.
-From Verif.C20_Daemon Require Import Model.
+From Verif.C20_Daemon Require Import Model Base Inv Frame Skel Proofs.
 Import ListNotations.
+Open Scope Z_scope.
+
+(* The full statement of C20 on histories (Model.hist_ok: every cancel of a worker that has not returned comes
+   after the return of every started worker of a higher order; stopOnce.Do(shutdown) returns only after every
+   started worker has returned; nothing starts and no registration succeeds after that; a name whose worker has
+   not returned is refused).  NOT proved in this round: see notes/C20.md ("partial"). *)
+Definition C20_full_statement : Prop :=
+  forall pool sch, Forall entry pool -> hist_ok (log (run fixed sch (init pool))) = true.
+
+(* Proved for ALL pools and ALL schedules (clause "after shutdown no worker can be added or started"):
+   in every history no worker starts and no BackgroundWorker call returns nil after some
+   stopOnce.Do(shutdown) - i.e. any ShutdownAndWait - has returned. *)
+Theorem C20_after_shutdown : forall pool sch, Forall entry pool ->
+  skel_ok (log (run fixed sch (init pool))) = true.
+Proof. exact after_shutdown. Qed.
+
+(* ... and in every reachable state in which the shutdown has completed the stopped flag is set and no call is
+   inside the registration / start critical sections (so none can still register or start a worker). *)
+Theorem C20_after_shutdown_state : forall pool sch, Forall entry pool ->
+  let s := run fixed sch (init pool) in
+  once s = ODone -> stopped s = true /\ forall t p, thr s t p -> in_critical p = false.
+Proof. exact after_shutdown_state. Qed.
+
+(* With the stopped flag set a BackgroundWorker call that begins returns ErrDaemonAlreadyStopped and changes nothing. *)
+Theorem C20_refused_when_stopped : forall s t n o k ch,
+  crashed s = false -> stopped s = true -> thr s t (BW0 n o k) ->
+  exists s', step fixed s t ch = Some s' /\ log s' = EvBW t RStopped :: EvBegin t n :: log s /\
+             heap s' = heap s /\ reg s' = reg s.
+Proof. exact refused_when_stopped. Qed.
+
+(* The synchronisation skeleton (lock holder, stopOnce, stopped flag, one shutdown walker) is an inductive
+   invariant of every step. *)
+Theorem C20_skeleton_invariant : forall s t ch s', ginvA s -> step fixed s t ch = Some s' -> ginvA s'.
+Proof. exact skel_step. Qed.
+
+(* Equal shutdown orders are cancelled without waiting in between: at the loop head of stopWorkers, a worker whose
+   order equals the current prevPriority is cancelled by steps that are always enabled (never the Wait). *)
+Theorem C20_equal_orders_no_wait : forall s t d w r prev ch,
+  crashed s = false -> thr s t (SD4 d (w :: r) prev) -> ord (heap s) w = prev ->
+  exists s', step fixed s t ch = Some s' /\
+    (thr s' t (SD6 d (w :: r) prev) \/ (thr s' t (SD4 (d ++ [w]) r prev) /\ log s' = EvCancel w :: log s)).
+Proof. exact equal_orders_no_wait. Qed.
+Theorem C20_cancel_step_enabled : forall s t d w r prev ch,
+  crashed s = false -> thr s t (SD6 d (w :: r) prev) ->
+  exists s', step fixed s t ch = Some s' /\ log s' = EvCancel w :: log s.
+Proof. exact cancel_step_enabled. Qed.
+
+(* Refutations on the pinned code (replayed on the real code through the verif yield hook, then repaired). *)
+(* D20a: BackgroundWorker passes the IsStopped check before the shutdown's snapshot: ShutdownAndWait returns while
+   the late worker runs and is never cancelled. *)
+Theorem C20_refuted_register_race :
+  let s := run pinned d20a_sched (init d20a_pool) in
+  hist_ok (log s) = false /\ shut_in (log s) = true /\
+  livew (getw (heap s) 1) = true /\ w_cancelled (getw (heap s) 1) = false.
+Proof. exact refuted_register_race. Qed.
+(* ... resumed after clear(): Go panic "assignment to entry in nil map". *)
+Theorem C20_refuted_register_crash :
+  crashed (run pinned (rep 4 0 ++ rep 1 1 ++ rep 7 2 ++ rep 3 1) (init d20a2_pool)) = true.
+Proof. exact refuted_register_crash. Qed.
+(* D20c: Start passes the IsStopped check, ShutdownAndWait returns (not running), Start starts the workers. *)
+Theorem C20_refuted_start_race :
+  let s := run pinned d20c_sched (init d20c_pool) in
+  skel_ok (log s) = false /\ shut_in (log s) = true /\ livew (getw (heap s) 0) = true /\
+  running s = true /\ stopped s = true.
+Proof. exact refuted_start_race. Qed.
+(* D20b (current code, known finding): Run returns while a worker added under a new order is running. *)
+Theorem C20_refuted_run_early :
+  let s := run fixed d20b_sched (init d20b_pool) in
+  run_ok (log s) = false /\ livew (getw (heap s) 1) = true /\ hist_ok (log s) = true.
+Proof. exact refuted_run_early. Qed.
+
+(* Non-vacuity / regression: the D20a schedule on the fixed configuration refuses the late registration, the
+   shutdown completes (once = ODone) and the history satisfies the full predicate. *)
+Example C20_register_race_fixed :
+  let s := run fixed (rep 5 0 ++ rep 6 1 ++ rep 1 2 ++ rep 7 3 ++ rep 4 2 ++ rep 1 4 ++ rep 4 3) (init d20a_pool) in
+  hist_ok (log s) = true /\ shut_in (log s) = true /\
+  existsb (fun e => match e with EvBW 2 RStopped => true | _ => false end) (log s) = true.
+Proof. exact register_race_fixed. Qed.
+Example C20_shutdown_completes :
+  let s := run fixed (rep 5 0 ++ rep 6 1 ++ rep 1 2 ++ rep 7 3 ++ rep 4 2 ++ rep 1 4 ++ rep 4 3) (init d20a_pool) in
+  once s = ODone /\ Forall entry d20a_pool.
+Proof. exact shutdown_completes_example. Qed.
+
+Print Assumptions C20_after_shutdown.
+Print Assumptions C20_after_shutdown_state.
+Print Assumptions C20_refused_when_stopped.
+Print Assumptions C20_skeleton_invariant.
+Print Assumptions C20_equal_orders_no_wait.
+Print Assumptions C20_cancel_step_enabled.
+Print Assumptions C20_refuted_register_race.
+Print Assumptions C20_refuted_register_crash.
+Print Assumptions C20_refuted_start_race.
+Print Assumptions C20_refuted_run_early.
